@@ -6,12 +6,23 @@ ROOT = os.path.dirname(os.path.dirname(os.path.abspath(__file__)))
 BASELINE = ("cd /repo && env -u IRISPIE_VERIF /venv/bin/python -m pytest -ra -q -p no:cacheprovider --timeout=900 "
             "--continue-on-collection-errors")
 
-CHECKS = {
- "C09": dict(level="model_checking", design="DESIGN.md section 4 / C09",
-   technique="explicit-state BFS over Span operation histories vs integer-range reference model + exhaustive enumeration of every period of the calendar",
-   text="Every period of every frequency over the stated year range (quick 1800-2200, daily 1896-2104; thorough years 1-9998, daily 1583-2420) is checked against a datetime-only reference calendar for order, arithmetic, hashing, tiling, accessors and keyword shifts with 129 offsets each; the Span API is explored as a state machine (all (start,end,step) of a 7-period window per frequency + contextual forms, BFS depth 2/3, every transition compared with a Python-range reference and checked for isolation); all mixed-frequency operations must raise.",
-   note="Trusted: Python datetime/calendar, the 40-line reference in ref/calendar.py. Not covered: years outside the range, weekly frequency, negative-step slicing, span-minus-period."),
-}
+def load_checks():
+    """each props/cXX.py carries a literal dict MANIFEST_ENTRY = dict(level=, design=, technique=, text=, note=)"""
+    import ast, glob
+    out = {}
+    for path in sorted(glob.glob(os.path.join(ROOT, "props", "c[0-9][0-9].py"))):
+        tree = ast.parse(open(path).read())
+        for node in tree.body:
+            if isinstance(node, ast.Assign) and getattr(node.targets[0], "id", None) == "MANIFEST_ENTRY":
+                v = node.value
+                if isinstance(v, ast.Call):
+                    d = {k.arg: ast.literal_eval(k.value) for k in v.keywords}
+                else:
+                    d = ast.literal_eval(v)
+                out[os.path.basename(path)[:-3].upper()] = d
+    return out
+
+CHECKS = load_checks()
 
 PENDING = {}
 
